@@ -103,6 +103,20 @@ def spec(tier, seed):
                  "unwind 66 (checked); subnormals, inf, NaN outside",
           functions=["rusty_variant::bytes_to_f64", "rusty_variant::bits::lsb_bytes_to_msb_bits"])
 
+    # twin of the open finding C19-F2: subnormal bit patterns (exponent field 0, mantissa != 0)
+    b.add(bits, "vk_c19_cvd_subnormal", """
+        let m: u64 = kani::any();
+        kani::assume(m != 0 && m < (1u64 << 52));
+        let neg: bool = kani::any();
+        let by = (((neg as u64) << 63) | m).to_le_bytes();
+        let got = bytes_to_f64(&by);
+        let want = f64::from_le_bytes(by);
+        assert!(got == want);
+        """, unwind=66, cost=40, stubs=[("f64::powi", "vk_powi")], finding="C19-F2",
+          bounds="every subnormal bit pattern (exponent field 0, any non-zero mantissa, both signs)",
+          functions=["rusty_variant::bytes_to_f64"],
+          basic='X# = 1: H# = .5: FOR I% = 1 TO 1030: X# = X# * H#: NEXT   \' X# = 2^-1030, a subnormal\nY# = CVD(MKD$(X#))   \' 0 instead of X# (MKD$ encodes every subnormal as zero; CVD decodes a subnormal pattern as 1.m * 2^-1023)')
+
     # encoder parts, one instance per binary exponent, sign and 52 mantissa bits symbolic
     def enc_instances(e, t, finding=None):
         tag = ("m%d" % -e) if e < 0 else str(e)
